@@ -6,17 +6,17 @@ scale=sc(2,5)
 scale+=[dict(r,set="c8",value=("8" if r.get("ident")=="lruChunkSize" else r["value"])) for r in sc(2,5)]
 Q=["quick","thorough"];T=["thorough"]
 H=[{"name":"H_witness","tiers":Q,"expect":"violation","bounds":"vacuity witness"}]
-H.append({"name":"H_fields","tiers":Q,"scale":"b2","bounds":"valid 2-file patch (rsync series + bsdiff series), B=2: the int64/enum/bool fields of one message at a time (10 messages) replaced by fresh symbolic values over the full 32/64-bit range, fed to patcher.New/Resume (fresh bowl) and rediff.NewContext/Optimize",
-  "max_steps":20000000,"param_sets":[{"mut":m,"structure":0} for m in range(10)]})
+H.append({"name":"H_fields","tiers":Q,"scale":"b2","bounds":"valid 2-file patch (rsync series + bsdiff series), B=2: the int64/enum/bool fields of one message at a time (13 messages) replaced by fresh symbolic values over the full 32/64-bit range, fed to patcher.New/Resume (fresh bowl) and rediff.NewContext/Optimize",
+  "max_steps":20000000,"param_sets":[{"mut":m,"structure":0} for m in range(13)]})
 H.append({"name":"H_fields","tiers":Q,"scale":"c8","bounds":"the bsdiff series messages (header, two controls, EOF control) mutated with an LRU chunk of 8 bytes: the 3-byte old file ends inside a chunk",
   "max_steps":20000000,"param_sets":[{"mut":m,"structure":0} for m in (5,6,7,8)]})
-H.append({"name":"H_fields","tiers":Q,"scale":"b2","bounds":"structure mutations: end marker dropped / duplicated, series kinds swapped, bsdiff EOF control dropped (no field mutated)",
-  "max_steps":20000000,"param_sets":[{"mut":-1,"structure":s} for s in range(1,5)]})
-H.append({"name":"H_truncate","tiers":Q,"scale":"b2","bounds":"the valid patch stream truncated at every byte index","max_steps":20000000,"param_sets":[{"cut":c} for c in range(0,350,1)]})
+H.append({"name":"H_fields","tiers":Q,"scale":"b2","bounds":"structure mutations: end marker dropped / duplicated, series kinds swapped, bsdiff EOF control dropped, an op after a full-file op, no end marker after it (no field mutated)",
+  "max_steps":20000000,"param_sets":[{"mut":-1,"structure":s} for s in range(1,7)]})
+H.append({"name":"H_truncate","tiers":Q,"scale":"b2","bounds":"the valid patch stream truncated at every byte index","max_steps":20000000,"param_sets":[{"cut":c} for c in range(0,400,1)]})
 H.append({"name":"H_signature","tiers":Q,"scale":"b2","bounds":"signature stream for files of 5,0,3 bytes (6 hashes needed) carrying 0..8 hashes with symbolic weak hashes; grouping and block validation at every file/block index","param_sets":[{"nh":n,"cut":-1} for n in range(0,9)]})
 H.append({"name":"H_signature","tiers":Q,"scale":"b2","bounds":"signature stream truncated at every byte index","param_sets":[{"nh":6,"cut":c} for c in range(0,190)]})
 H.append({"name":"H_overlay","tiers":Q,"bounds":"overlay stream of 3 ops: type and length of one op symbolic (full range), with/without end marker; and truncated at every byte","param_sets":[{"mut":m,"end":e,"cut":-1} for m in (-1,0,1,2) for e in (0,1)]+[{"mut":-1,"end":1,"cut":c} for c in range(0,70)]})
-H.append({"name":"H_fields","tiers":T,"scale":"b2","bounds":"a mutated message combined with each structure mutation","max_seconds":1500,"max_steps":20000000,"param_sets":[{"mut":m,"structure":s} for m in range(10) for s in range(1,5)]})
+H.append({"name":"H_fields","tiers":T,"scale":"b2","bounds":"a mutated message combined with each structure mutation","max_seconds":1500,"max_steps":20000000,"param_sets":[{"mut":m,"structure":s} for m in range(13) for s in range(1,7)]})
 json.dump({"property":"C10","package":"c10","scale":scale,"harnesses":H,
  "stubs":["os -> memfs, protobuf -> tag-faithful codec model (truncation inside a message is reported as the codec's error)","md5 model"],
  "outside":["compressed framing","malformed containers, lengths beyond the stream (excluded by the property)","two fields of different messages mutated at once","real protobuf varint-level corruption inside a message"]},open("config.json","w"),indent=1)
